@@ -493,3 +493,38 @@ Proof.
 Qed.
 
 End StopShape.
+
+(* ====================================================================== *)
+(* Examples: the hypotheses of the theorems above are satisfiable on concrete runs *)
+Definition ex_grp : pconf := mkConf 1 3 10 15 999 true ARUnexpected [0] true false CmdOk 0%nat.
+
+(* B2 / B1: a RUNNING process with a child (pid 1000 > 0), stopasgroup set *)
+Example stop_sends_stopsignal_first_example :
+  let w := Model.run 10 [ex_grp] ex_g [mkPass 5 [] [0] []; mkPass 30 [] [] [0]] in
+  sts w 0%nat = RUNNING /\ pid (procs w 0%nat) > 0 /\
+  out (snd (Model.stop 10 [ex_grp] 0%nat w)) = EKill (-1000) 15 0 :: EState 0%nat RUNNING STOPPING 1000 true :: out w.
+Proof. vm_compute. repeat split. Qed.
+
+Example stop_cancels_backoff_example :
+  let w := Model.run 10 [ex_nf3] ex_g [mkPass 5 [] [] []] in sts w 0%nat = BACKOFF.
+Proof. vm_compute. reflexivity. Qed.
+
+(* B3 / B4: the child ignores SIGTERM: STOPPING at the boundary, the deadline is 30 + 10 * 10 *)
+Example sigkill_exactly_when_due_example :
+  let w := Model.run 10 [ex_ok] ex_g [mkPass 5 [] [0] []; mkPass 30 [ARpc 1 (RStop 0%nat false)] [] [1]] in
+  sts w 0%nat = STOPPING /\ pid (procs w 0%nat) > 0 /\ killing (procs w 0%nat) = true /\
+  delay (procs w 0%nat) = 130 /\
+  kill_due (adjust_times 10 STOPPING (Model.cf [ex_ok] 0%nat) (now w) (procs w 0%nat)) (now w) = false.
+Proof. vm_compute. repeat split. Qed.
+
+(* ... and two passes later, at 131: SIGKILL *)
+Example sigkill_sent_after_deadline_example :
+  let w := Model.run 10 [ex_ok] ex_g [mkPass 5 [] [0] []; mkPass 30 [ARpc 1 (RStop 0%nat false)] [] [1];
+                                      mkPass 129 [] [] []; mkPass 131 [] [] [0]] in
+  exists l r, out w = l ++ EKill 1000 9 0 :: r /\ sts w 0%nat = STOPPED.
+Proof. vm_compute. eexists [_; _], _. split; reflexivity. Qed.
+
+Example stopping_until_reaped_then_stopped_example :
+  let w := Model.run 10 [ex_ok] ex_g [mkPass 5 [] [0] []; mkPass 30 [ARpc 1 (RStop 0%nat false)] [] [0]] in
+  exists l r, out w = l ++ EState 0%nat STOPPING STOPPED 1000 true :: EWait 1000 15 :: r.
+Proof. vm_compute. eexists [_], _. reflexivity. Qed.
